@@ -93,7 +93,8 @@ func obErrImpliesZero(c *rules.Ctx, id string) {
 
 func init() {
 	Registry["C12"] = &Spec{
-		Explanation: "",
+		Explanation: "Decides structural necessary conditions of 'execution never panics and fails atomically with a typed error': (1) an inventory of every may-panic construct (explicit panic, never-returning helper, index/slice, unchecked type assertion, integer and big-number division, negative make/repeat) in every hand-written function reachable from RunProgram, Run, RunWithFeatureFlags and the Error() renderers; each site is discharged mechanically - exhaustive closed-sum switch, bounds implied by the path condition (difference constraints), divisor proved non-zero on every path - or by a named exception with a side condition recomputed on every run; (2) every type switch over a closed sum on the run path is exhaustive; (3) no error result of a call is dropped: it is returned, or tested with the failure edge leading only to returns of that error (possibly wrapped in a literal, as for store errors), or accumulated in an error field; (4) a return with a possibly non-nil error carries only zero values in the other results, up to RunWithFeatureFlags.",
+		NotDecided:  []string{"that the error names the actual cause", "behaviour on a program value that did not come from an error-free parse (assumption A1)", "panics inside math/big, regexp or the ANTLR runtime on their documented domains", "nil dereferences of grammar-mandatory children (assumption A1)"},
 		Assumptions: []string{A1, A3, A4},
 		Run: func(c *rules.Ctx) {
 			obPanicRun(c, "C12.1")
